@@ -44,7 +44,9 @@ RULE = ("EXHAUSTIVE over shapes: every shape n_x, n_y <= 7, n_z <= 4 (quick) / <
         "arrangements, x five code paths (getVialGroup for every single name, pairs and an unknown name; statistics "
         "table and trajectory table of a short real run; Snowfall accessors with group=...; storeStates group "
         "requests, plain and thinned with uniform / random inside every group, with the trajectory-table labels of the "
-        "recorded subset); non-trivial when n_x, n_y >= 2; distinct by the JSON form of the case (corpus cases repeat box shapes)")
+        "recorded subset; index-list requests in non-ascending order with the data of each trajectory row identified "
+        "against the same-seed full recording; every group name queried twice, the first result overwritten in between, "
+        "on objects built with 'all', with index lists and with thinning requests); non-trivial when n_x, n_y >= 2; distinct by the JSON form of the case (corpus cases repeat box shapes)")
 EXPLANATION = ("Lean theorems for all shapes with n_x, n_y >= 2 about the group model + exhaustive comparison of the "
                "five code paths with the model over a box of shapes")
 PARALLEL = True
@@ -56,6 +58,7 @@ QUERIES = [[n] for n in NAMES] + [["corner", "edge"], ["edge", "core"], ["side",
 THIN = [f"uniform.{g}.2" for g in ("corner", "edge", "core", "side", "center")] + \
        [f"{g}_uniform_3" for g in ("edge", "core")] + \
        [f"{g}_random_1" for g in ("corner", "edge", "core", "side")] + ["edge_random_2", "all_uniform_3"]
+THIN_QUERIED = ("uniform.edge.2", "corner_random_1", "all_uniform_3")
 FALL_QUERIES = [[n] for n in NAMES] + [["corner", "edge"], ["side", "core"], ["corner", "all"]]
 
 
@@ -74,6 +77,39 @@ def _opcond():
 
 def _q(q):
     return json.dumps(q)
+
+
+def _requery(S):
+    """every group name queried, the returned array overwritten, and queried again:
+    {name: [first mask, mask after the caller mutated the first result]}"""
+    out = {}
+    for g in NAMES:
+        try:
+            first = S.getVialGroup(g)
+            keep = [int(i) for i in np.where(first)[0]]
+            try:
+                first[:] = ~first
+            except Exception:
+                pass
+            out[g] = [keep, [int(i) for i in np.where(S.getVialGroup(g))[0]]]
+        except Exception as e:
+            out[g] = {"raise": core.exc_class(e)}
+    return out
+
+
+def int_subsets(N):
+    """recorded index lists in non-ascending order, mixing position classes"""
+    a = [N - 1, 0, N // 2, 1, (2 * N) // 3]
+    seen, sel = set(), []
+    for v in a:
+        if 0 <= v < N and v not in seen:
+            seen.add(v)
+            sel.append(v)
+    out = [sel]
+    rev = list(range(min(N, 7) - 1, -1, -1))
+    if rev != sel:
+        out.append(rev)
+    return out
 
 
 def run_impl(case):
@@ -101,6 +137,7 @@ def run_impl(case):
         except Exception as e:
             masks[_q(q)] = {"raise": core.exc_class(e)}
     obs["masks"] = masks
+    obs["requery"] = _requery(S)
     # 2. tables of a short real run
     try:
         S.run()
@@ -114,6 +151,29 @@ def run_impl(case):
         obs["trajVials"] = [int(v) for v in d["vial"].tolist()]
         d2 = traj_df[(traj_df.state == "sigma") & (traj_df.Time == t0)].sort_values("vial")
         obs["trajLabelsSigma"] = [_lab(v) for v in d2["group"].tolist()]
+        # recorded index lists in the user's (unsorted) order: rows of the trajectory table in table order,
+        # each with its label and with the vial of the same-seed 'all' run whose data it holds
+        XT = np.array(S.X_T)
+        subs = []
+        for sel in int_subsets(N):
+            rec = {"sel": sel}
+            try:
+                S4 = Snowflake(storeStates=list(sel), **kw)
+                S4.run()
+                _, tdf = S4.to_frame()
+                d = tdf[tdf.state == "temperature"]
+                rows = d.pivot_table(index=["vial", "group"], columns="Time", values="value", sort=False)
+                rec["vials"] = [int(v) for v, _ in rows.index]
+                rec["labels"] = [_lab(g) for _, g in rows.index]
+                rec["data_ok"] = [bool(int(v) < N and np.array_equal(np.asarray(r), XT[int(v), :]))
+                                  for (v, _), r in zip(rows.index, rows.to_numpy())]
+                rec["mask"] = [int(i) for i in np.where(S4._storageMask)[0]]
+                if sel is int_subsets(N)[0] or len(subs) == 0:
+                    rec["requery"] = _requery(S4)
+            except Exception as e:
+                rec["raise"] = core.exc_class(e)
+            subs.append(rec)
+        obs["subsets"] = subs
     except Exception as e:
         obs["tables"] = {"raise": core.exc_class(e)}
     # 3. Snowfall filters (stats tagged with the vial index so that the selected rows are visible)
@@ -155,6 +215,13 @@ def run_impl(case):
             with _recording(log):
                 S3 = Snowflake(storeStates=sp, **kw)
             rec = {"mask": [int(i) for i in np.where(S3._storageMask)[0]], "choices": [c["out"] for c in log]}
+            if sp in THIN_QUERIED:
+                # the object built WITH a thinning request must answer group queries like any other
+                rec["requery"] = _requery(S3)
+                S3.run()
+                sdf, _ = S3.to_frame(n_timeSteps=2)
+                dd = sdf[sdf.variable == "t_nucleation"].sort_values("vial")
+                rec["statsLabels"] = [_lab(v) for v in dd["group"].tolist()]
             if rec["mask"]:
                 S3.run()
                 _, tdf = S3.to_frame(n_timeSteps=2)
@@ -232,10 +299,38 @@ def compare(case, impl, model):
     for g, m in model["store"].items():
         if impl["store"].get(g) != m:
             dis.append(f"storeStates={g!r}: impl {impl['store'].get(g)} vs model {m}")
+    single = {g: model["masks"][_q([g])] for g in NAMES}
+
+    def requery_dis(tag, rq):
+        for g in NAMES:
+            if rq.get(g) != [single[g], single[g]]:
+                dis.append(f"{tag}: getVialGroup({g!r}) twice (result overwritten in between): impl {rq.get(g)} "
+                           f"vs model {single[g]} both times")
+                return
+
+    if "requery" in impl:
+        requery_dis("storeStates='all' object", impl["requery"])
+    for rec in impl.get("subsets", []):
+        if "raise" in rec:
+            dis.append(f"storeStates={rec['sel']}: run/to_frame raises {rec['raise']}")
+            continue
+        want_v = sorted(rec["sel"])
+        if rec["mask"] != want_v or rec["vials"] != want_v:
+            dis.append(f"storeStates={rec['sel']}: trajectory-table vial column {rec['vials']} (mask {rec['mask']}) "
+                       f"vs model {want_v}")
+        elif rec["labels"] != [model["trajLabels"][v] for v in want_v]:
+            dis.append(f"storeStates={rec['sel']}: trajectory-table labels {rec['labels']} vs model "
+                       f"{[model['trajLabels'][v] for v in want_v]}")
+        if "requery" in rec:
+            requery_dis(f"storeStates={rec['sel']} object", rec["requery"])
     for sp, m in model["thin"].items():
         a = impl["thin"].get(sp, {})
         if a.get("raise") != m.get("raise") or a.get("mask") != m.get("mask"):
             dis.append(f"storeStates={sp!r}: impl {a.get('raise') or a.get('mask')} vs model {m.get('raise') or m.get('mask')}")
+        if "requery" in a:
+            requery_dis(f"storeStates={sp!r} object", a["requery"])
+            if a.get("statsLabels") != model["statsLabels"]:
+                dis.append(f"storeStates={sp!r} object: statistics-table labels differ from the model")
     return dis
 
 
@@ -350,6 +445,40 @@ def predicates(case, impl):
         if impl["store"].get(g) != want[g]:
             out.append(Failure(clause="store_group_agrees", key=f"store_group_agrees|storeStates|{g},{sc}",
                                detail=f"{where}: storeStates={g!r} records {impl['store'].get(g)}, class is {want[g]}"))
+    # the same classes on every object and on every call: objects built with 'all', with index lists and with
+    # thinning requests; each name asked twice with the first result overwritten by the caller in between
+    objs = [("storeStates='all'", impl.get("requery"), None)]
+    objs += [(f"storeStates={r['sel']}", r.get("requery"), None) for r in impl.get("subsets", [])]
+    objs += [(f"storeStates={sp!r}", r.get("requery"), r.get("statsLabels")) for sp, r in impl.get("thin", {}).items()]
+    for tag, rq, labs in objs:
+        if rq is None:
+            continue
+        for g in NAMES:
+            if rq.get(g) != [want[g], want[g]]:
+                cl = "first-call" if not isinstance(rq.get(g), list) or rq[g][0] != want[g] else "repeated-call"
+                out.append(Failure(clause="groups_same_on_every_object",
+                                   key=f"groups_same_on_every_object|getVialGroup|{cl},{sc}",
+                                   detail=f"{where}, object with {tag}: getVialGroup({g!r}) = {rq.get(g)} (first call, call "
+                                          f"after the first result was overwritten); the class is {want[g]}"))
+                break
+        if labs is not None and [canon(arr, nz, l) if isinstance(l, str) else l for l in labs] != cls:
+            out.append(Failure(clause="labels_agree", key=f"labels_agree|to_frame.stats|thinned-object,{sc}",
+                               detail=f"{where}, object with {tag}: statistics-table labels {labs}"))
+    # recorded index lists in the user's order: the label of a trajectory row is the class of the vial whose
+    # data the row holds (data identified against the same-seed run that records every vial)
+    for r in impl.get("subsets", []):
+        if "raise" in r:
+            out.append(Failure(clause="labels_agree", key=f"labels_agree|to_frame.traj|int-subset raises {r['raise']}",
+                               detail=f"{where}: storeStates={r['sel']}: {r['raise']}"))
+            continue
+        bad = [i for i, (v, l, ok) in enumerate(zip(r["vials"], r["labels"], r["data_ok"]))
+               if not ok or not isinstance(l, str) or v >= N or canon(arr, nz, l) != cls[v]]
+        if bad or sorted(r["vials"]) != sorted(r["sel"]):
+            i = bad[0] if bad else 0
+            out.append(Failure(clause="labels_agree", key=f"labels_agree|to_frame.traj|int-subset,{sc}",
+                               detail=f"{where}: storeStates={r['sel']}: trajectory-table row {i} says vial {r['vials'][i]} "
+                                      f"labelled {r['labels'][i]!r}; holds that vial's data: {r['data_ok'][i]}; class of "
+                                      f"that vial: {cls[r['vials'][i]] if r['vials'][i] < N else None}"))
     # thinning inside a group: recorded vials belong to the named group and are labelled as that group
     for sp, rec in impl.get("thin", {}).items():
         g = next(n for n in ("corner", "edge", "core", "side", "center", "all") if n in sp)
